@@ -1357,6 +1357,12 @@ static int32_t pstm_mul_2d(const pstm_int *a, int16_t b, pstm_int *c)
             c->dp[x] = (c->dp[x] << b) + carry;
             carry = carrytmp;
         }
+        if (carry && x >= PSTM_MAX_SIZE)
+        {
+            /* the result needs PSTM_MAX_SIZE + 1 digits: report it, do not
+               drop the bits shifted out */
+            return PS_LIMIT_FAIL;
+        }
         /* store last carry if room */
         if (carry && x < PSTM_MAX_SIZE)
         {
